@@ -47,7 +47,7 @@ class AbstractQName(AnyAtomicType):
         if ':' not in value:
             return cls(namespaces.get(''), value)
         else:
-            return cls(namespaces[value[0:value.index(':')]], value)
+            return cls(namespaces[value[0:value.index(':')].lstrip(' \t\n\r')], value)
 
     __slots__ = ('uri', 'qname', 'prefix', 'local_name')
 
